@@ -70,6 +70,9 @@ HARNESSES = [
     H('k_read_hex_u32', 'kani_payload.rs', ['C07', 'C04'], bounded='streams of <= 10 bytes (all byte values)', timeout=900, doc='read_hex_u32: Ok consumes exactly 8 bytes and returns the hex number; short input is Err; no panic'),
     H('k_file_entry_index_stripped', 'kani_payload.rs', ['C07', 'C04'], bounded='2 header entries (all u32 indexes)', timeout=600, doc='Reader::file_entry_index for stripped entries: Some(idx) iff idx < len'),
     H('k_file_entry_index_cpio', 'kani_payload.rs', ['C07'], bounded='3 header entries, 7 fixed names', timeout=900, doc='Reader::file_entry_index for cpio entries: lookup by path, independent of position'),
+    H('k_take_till_nul_long', 'kani_header.rs', ['C01', 'C04', 'C05'], bounded='slice length <= 16', tier='thorough', timeout=1800, doc='take_till(==0) at a larger bound'),
+    H('k_parse_binary_entry_long', 'kani_header.rs', ['C01', 'C04', 'C05'], bounded='slice length <= 16 (all u32 counts)', tier='thorough', timeout=1800, doc='parse_binary_entry at a larger bound'),
+    H('k_dec_u16_long', 'kani_header.rs', ['C01', 'C04', 'C05'], bounded='slice length <= 12 (all u32 counts)', tier='thorough', timeout=1800, doc='parse_entry_data_number<u16> at a larger bound'),
     H('k_entry_short', 'kani_header.rs', ['C04'], bounded='length 15', timeout=900, doc='an input one byte short of an index entry: Err, no panic'),
     H('k_entry_short_all', 'kani_header.rs', ['C04'], bounded='lengths 0, 3, 4, 8, 12', tier='thorough', timeout=1800, doc='inputs shorter than 16 bytes: Err, no panic'),
     H('k_write_index_sink_1byte', 'kani_header.rs', ['C14'], bounded='one sink: accepts 1 byte per call, never fails (all tag/offset/count values)', doc='counterexample twin of V:IndexEntry::write_index: Ok => exactly the 16 canonical bytes'),
